@@ -291,7 +291,9 @@ func (a *Adapter) Apply(ctx sdk.Context, op graph.Op) (sdk.Context, string) {
 		}
 		return later, "ok"
 	case "Reward":
-		// what distribution's begin blocker does with collected fees, per validator
+		// what distribution's begin blocker does with the fees collected in the previous block, per validator
+		// (a new block: a delegation earns nothing in the block it was created in)
+		ctx = withHeight(ctx, ctx.BlockHeight()+1)
 		for _, v := range a.Vals {
 			val, e := w.App.StakingKeeper.GetValidator(ctx, a.valAddr(v))
 			must(e)
@@ -511,6 +513,7 @@ func (a *Adapter) Project(ctx sdk.Context) any {
 func (a *Adapter) pendingReward(ctx sdk.Context, del sdk.AccAddress, va sdk.ValAddress) (yes bool) {
 	defer func() {
 		if r := recover(); r != nil {
+			debugf("pendingReward panic: %v", r)
 			yes = false
 		}
 	}()
@@ -531,8 +534,10 @@ func (a *Adapter) pendingReward(ctx sdk.Context, del sdk.AccAddress, va sdk.ValA
 	}
 	rw, err := dk.CalculateDelegationRewards(c, v, d, end)
 	if err != nil {
+		debugf("pendingReward: %v", err)
 		return false
 	}
+	debugf("pendingReward %s: %s", del, rw)
 	coins, _ := rw.TruncateDecimal()
 	return !coins.IsZero()
 }
